@@ -302,15 +302,15 @@ PROPS["C11"] = {
             "between uses (URL with query, args API Add/Peek, DisablePathNormalizing, headers, cookies, Connection: close, byte and stream bodies); per exchange "
             "a generated response (interim 100, fixed / chunked+trailer / until-close / bodiless, sizes around MaxResponseBodySize incl. oversize documents that "
             "look like HTTP responses, HTTP/1.0, Connection: close, peer closing silently afterwards, 1/8 mutated or truncated, trailing bytes), configurations "
-            "MaxResponseBodySize unset/10/64/1000, header-name normalisation on/off, peer delivering 1/7/100 bytes per read, one Response object reused or not.",
+            "MaxResponseBodySize unset/10/64/1000, header-name normalisation on/off, peer delivering 1/7/100 bytes per read, one Response object reused or not, resp.SkipBody set by the application for 1/15 of the exchanges.",
     "level_text": "Lean models of the request writer (header block model of C05 + body encodings of C04) and of the response reader (first line, scanner, 100-continue skip, "
                   "fixed/chunked/identity bodies, limit) are compared with the real code on every case; theorems for all inputs: the size limit is enforced on every accepted "
                   "response, bodiless statuses never carry a body. Spec step: every written request is read identically by the strict decoder, by the model of hertz's own "
                   "server reader and by net/http, AND these are the target and Host of the URL (+ args) the application gave (URI model of C17); every conforming response comes back with the same status, fields and body. "
                   "Sequences: the exchange model (Model/Http1/Exchange: acquire idle or dial, write, Peek(1), ReadHeaders, ReadRespBody with limit, close on any error / Connection: close, "
-                  "else release with the unread bytes; ErrBadPoolConn retry of idempotent methods) predicts per exchange the bytes the peer receives, the number of dials and the whole result; "
+                  "or a body skipped at the application's wish (resp.SkipBody, /repo 19d2b4c), else release with the unread bytes; ErrBadPoolConn retry of idempotent methods whose body is no stream (/repo 3183d35)) predicts per exchange the bytes the peer receives, the number of dials and the whole result; "
                   "spec per exchange: as long as the peer has conformed so far, the request arrives as given and the response comes back as sent whatever happened before. Theorems for all "
-                  "inputs: a failed exchange never returns its connection to the pool; on a pool without unread bytes every exchange returns what its own response bytes give alone, for every sequence.",
+                  "inputs: a failed exchange never returns its connection to the pool; on a pool without unread bytes every exchange returns what its own response bytes give alone, for every sequence, also when the application sets SkipBody for some of the requests (a skipped body never goes back to the pool); after any Do, with or without a retry and whatever its outcome, resp.SkipBody is what the application set (skip_flag_restored, response_object_keeps_application_flag; /repo 07a471c).",
     "level_note": _H1_NOTE + " HostClient.Do's pool/retry logic is C10; multipart uploads (fields, file readers delivering content in pieces around the 512-byte sniffing buffer) are written by the real code and decoded by net/http and by hertz's own reader, the multipart syntax itself is mime/multipart's and is not modelled; response streaming mode reuses the "
                   "C14 body-stream model and is not separately compared here (c11seq runs buffered mode only). In c11seq all URLs of a sequence share one authority (one pool); the read deadline of the in-memory peer expires at once when it has nothing to send.",
     "assumptions": ["net/http.ReadRequest as second opinion", "header values set by the application are free of control bytes (CR/LF are C05; NUL etc. are written verbatim)"],
@@ -441,7 +441,11 @@ PROPS["C15"] = {
             "values) and a JSON body (typed, mistyped, null, duplicate and case-variant keys, six content-type spellings, truncated body); "
             "bounded-exhaustive priority table for one int field and one []int8 field: every subset of the six tags x (none | one tag required) x "
             "default or not x every subset of sources carrying a distinct value; cold/warm orders A B A on a session binder, then the global binder, "
-            "then a fresh binder; a malformed stream (hostile keys/values/option strings); batches of 16 goroutines binding 4 types on one cold binder.",
+            "then a fresh binder; a malformed stream (hostile keys/values/option strings); batches of 16 goroutines binding 4 types on one cold binder; "
+            "sequences of calls of the six entry points that reach the field decoders (Bind, BindAndValidate, BindPath, BindForm, BindQuery, "
+            "BindHeader) on ONE binder with its five per-type decoder caches (one case = one whole sequence): every ordered triple of entry points "
+            "on each of three fixed multi-source types x three requests, and random sequences of 2..8 calls over 1..3 run-time types, each call with "
+            "its own request, run sequentially on a fresh binder, sequentially on the package-level default binder, or all calls concurrently.",
     "exhaustive_note": "one-field priority table: 64 tag subsets x up to 7 'required' positions x default yes/no x 64 presence subsets "
                        "(int field: all 57k cases in both tiers; []int8: every 7th in quick, all in thorough; *string: thorough); the rest is sampled",
     "level_text": "Proved in Lean for all tag lists, requests and field types (no size bound) about the model of the two field decoders: the tags reach "
@@ -450,7 +454,12 @@ PROPS["C15"] = {
                   "earlier 'required' errors (picks_first_present, _slice); the json tag, last, keeps the pre-bound value for any letter case of the JSON content type (json_value_kept; regressions ct_case_regression, slice_header_regression); "
                   "a missing required value is an error whatever the other tags are (required_is_error, _slice; F12 regression f12_regression); a "
                   "field nothing carries keeps zero or gets its default (default_kept_partial, _slice); the per-type decoder cache is transparent for "
-                  "every sequence of binds (pure_function). One statement is false of the code and kept as a decide-checked witness "
+                  "every sequence of binds (pure_function); with the five caches of defaultBinder kept apart as tagCache does, every sequence of "
+                  "calls of Bind / BindAndValidate / BindPath / BindForm / BindQuery / BindHeader on one binder returns, call by call, the "
+                  "cache-free function of entry point, type and request (entry_points_pure, bind_unaffected_by_earlier_calls; the cache table, "
+                  "the tag each entry point passes and the load/store discipline of bindTag are read from binding/default.go on every run: "
+                  "entry_points_match_gen; a shared cache provably breaks Bind: shared_cache_breaks_bind), and the tag-restricted entry points "
+                  "equal their one-source specification for all types and requests (tag_entry_points_refine_spec). One statement is false of the code and kept as a decide-checked witness "
                   "(default_kept_fails_at). The model is compared with the real Bind on every case, and a declarative "
                   "spec (first named source in documented order that carries the key) is evaluated on the implementation's output.",
     "level_note": "Partial. Trusted: Lean kernel, translator (tag order, SelectTextDecoder table, getter tables), harness/driver. Residue, sampled only: "
@@ -461,6 +470,7 @@ PROPS["C15"] = {
                     "tag names and keys contain no '.', header tag names are not special header names (Host, Content-Type, Cookie, ...), ASCII content types",
                     "the names encoding/json knows the fields by are pairwise distinct up to case; json:\"-\" carries no options",
                     "top-level fields of the listed kinds only (no nested structs, maps, arrays, raw_body, file_name, vd)",
+                    "BindAndValidate is exercised on types without validation tags only (needValidate false): it must equal Bind; BindJSON / BindProtobuf / BindByContentType use no decoder cache and are outside the model",
                     "Args / cookie / header containers return what was put in (C17, C05); strconv and sonic are taken as they are"],
     "timeout": {"quick": 120, "thorough": 1500},
 }
